@@ -415,4 +415,81 @@ def rule_domain_order(P):
     return R
 
 
+def rule_terminal_codec(P):
+    """encoder (getIntegerHandle / getRealHandle / getHandle) and decoder (setFromHandle) of terminal handles agree on the
+    flag bit and the shift amounts; zero/false is handle 0"""
+    R = RuleResult("codec.terminal", "terminal handle encoder and decoder agree: flag bit = top bit, integer decode shifts out exactly the flag bit, real encode/decode shift by the same amount, zero and false map to handle 0")
+    msb = P.find(M + "terminal::msb")[0]
+    gm = Graph(msb)
+    R.functions.add(msb["inst"])
+    rets = [n.ev.get("const") for n in gm.nodes if n.kind == "ret"]
+    iid = "msb() is the top bit of node_handle"
+    if rets == [-(1 << 31)]:
+        R.ok(iid, where(msb))
+    else:
+        R.fail(iid, where(msb), Finding(R.rule, msb["file"], msb["q"], "msb", "msb() folds to %s, expected the top bit of a 32-bit handle" % rets, msb["line"]))
+    enc_i = P.find(M + "terminal::getIntegerHandle")[0]
+    enc_r = P.find(M + "terminal::getRealHandle")[0]
+    dec = P.find(M + "terminal::setFromHandle")[0]
+    gi, gr, gd = Graph(enc_i), Graph(enc_r), Graph(dec)
+    R.functions |= {enc_i["inst"], enc_r["inst"], dec["inst"]}
+    live_i, live_r = gi.reach([gi.entry]), gr.reach([gr.entry])
+    bi = [n.ev for n in gi.nodes if n.kind == "bin" and n.id in live_i]
+    br = [n.ev for n in gr.nodes if n.kind == "bin" and n.id in live_r]
+    dcase = {}
+    for cases in switch_cases(gd):
+        for lab, ids in cases.items():
+            dcase[_enum(lab)] = [gd.nodes[i].ev for i in sorted(ids) if gd.nodes[i].kind == "bin"]
+    if "INTEGER" not in dcase or "REAL" not in dcase:
+        raise AnalysisBroken("codec.terminal: setFromHandle has no INTEGER/REAL cases")
+    # integer: encode = value | msb ; decode = (h << k) >> k with k == 1 (drops exactly the flag bit, sign-extends)
+    iid = "integer: encode sets only the flag bit"
+    if len(bi) == 1 and bi[0]["op"] == "|" and "msb" in bi[0]["r"]["refs"]:
+        R.ok(iid, where(enc_i))
+    else:
+        R.fail(iid, where(enc_i), Finding(R.rule, enc_i["file"], enc_i["q"], "int-encode", "integer handles are no longer `value | msb()`: %s" % [(b["op"], b["r"]["text"]) for b in bi], enc_i["line"]))
+    di = dcase["INTEGER"]
+    shl = [b["r"].get("const") for b in di if b["op"] == "<<"]
+    shr = [b["r"].get("const") for b in di if b["op"] == ">>"]
+    iid = "integer: decode shifts the flag bit out and sign-extends back (<<%s then >>%s)" % (shl, shr)
+    if shl == [1] and shr == [1]:
+        R.ok(iid, where(dec))
+    else:
+        R.fail(iid, where(dec), Finding(R.rule, dec["file"], dec["q"], "int-decode", "integer decode shifts %s left / %s right; the encoder sets exactly one flag bit, so both must be 1" % (shl, shr), dec["line"]))
+    # real: encode = (bits >> c) | msb ; decode = h << c
+    enc_shift = [b["r"].get("const") for b in br if b["op"] == ">>"]
+    ors = [b for b in br if b["op"] == "|" and "msb" in b["r"]["refs"]]
+    dec_shift = [b["r"].get("const") for b in dcase["REAL"] if b["op"] == "<<"]
+    iid = "real: encode >>%s |msb, decode <<%s" % (enc_shift, dec_shift)
+    if ors and enc_shift and dec_shift and set(enc_shift) == set(dec_shift) == {1} :
+        R.ok(iid, where(enc_r))
+    else:
+        R.fail(iid, where(dec), Finding(R.rule, dec["file"], dec["q"], "real-shift", "real handles are encoded with >>%s but decoded with <<%s" % (enc_shift, dec_shift), dec["line"]))
+    # zero / false -> handle 0
+    for g, f, field in ((gi, enc_i, "t_integer"), (gr, enc_r, "t_real")):
+        tests = [n for n in g.nodes if n.kind == "branch" and n.cond and n.cond.get("op") == "truth" and field in n.cond["l"]["refs"] and len(n.succ) == 2]
+        iid = "%s: a zero value encodes to handle 0" % f["q"].replace(M, "")
+        good = False
+        for t in tests:
+            zidx = 0 if t.cond.get("neg") else 1
+            st = [s for s, i in t.succ if i == zidx][0]
+            nxt = g.nodes[st]
+            if nxt.kind == "ret" and nxt.ev.get("const") == 0:
+                good = True
+        if good:
+            R.ok(iid, where(f))
+        else:
+            R.fail(iid, where(f), Finding(R.rule, f["file"], f["q"], "zero", "zero is no longer encoded as the transparent handle 0", f["line"]))
+    gh = Graph(P.find(M + "terminal::getHandle")[0])
+    bret = [n.ev["text"] for n in gh.nodes if n.kind == "ret" and "t_boolean" in n.ev.get("refs", [])]
+    bdec = [n.ev["rhs"] for n in gd.nodes if n.kind == "store" and n.ev["member"].endswith("::t_boolean")]
+    iid = "boolean: encoded %s, decoded %s" % (bret, bdec)
+    if bret and all(re.sub(r"\s+", "", t).endswith("?-1:0") for t in bret) and bdec and all(re.sub(r"[\s()]", "", t) == "h!=0" for t in bdec):
+        R.ok(iid, where(dec))
+    else:
+        R.fail(iid, where(dec), Finding(R.rule, dec["file"], dec["q"], "bool", "boolean terminals: encoder %s and decoder %s disagree (true = -1, false = 0)" % (bret, bdec), dec["line"]))
+    R.require_floor(7, "terminal codec obligations")
+    return R
+
+
 RULES = [rule_tokens, rule_terminal_io, rule_sections, rule_keywords, rule_code_chars, rule_domain_order]
